@@ -41,6 +41,22 @@ pub fn gen(rng: &mut Rng, tier: Tier, idx: u64) -> Case {
         let (script, tail) = gen_read_script(rng, 16, 100, &[]);
         c.read_script = script;
         c.read_tail = tail;
+        c.reader_style = rng.below(3) as u8;
+        return c;
+    }
+    if idx % 4 == 1 {
+        // bounded-exhaustive tiny frames (see common::small_frame), optionally followed by bytes
+        let fam = crate::gen::pick_fam(rng);
+        let mut c = Case::new("C06", "c06-agree", fam, Front::P);
+        c.stream = Bs(small_frame(fam, idx / 4));
+        if rng.chance(1, 3) {
+            let n = rng.urange(1, 4);
+            c.suffix = Bs(rng.bytes(n));
+        }
+        let (script, tail) = gen_read_script(rng, 8, 100, &[]);
+        c.read_script = script;
+        c.read_tail = tail;
+        c.reader_style = rng.below(3) as u8;
         return c;
     }
     hostile_case(rng, tier, idx, "C06", "c06-agree", 40)
